@@ -453,6 +453,7 @@ class StreamResponse(
         version = request.version
         status_line = f"HTTP/{version[0]}.{version[1]} {self._status} {self._reason}"
         await writer.write_headers(status_line, self._headers)
+        request._started_response = self
 
         # Send headers immediately if not opted into buffering
         if self._send_headers_immediately:
